@@ -177,10 +177,22 @@ def run_job(lines, cfg, limit=25.0):
         fw.accepted = []
         fw.expected = cfg["boot"]
     p.startprint(gcoder.GCode(list(lines)))
+    # a print is "stalled" only when nothing has moved on the wire for 6 s while it is still printing; a long resend
+    # storm that is still making progress is waited for (up to 150 s, then the scenario is inconclusive)
     t0 = time.time()
-    while p.printing and time.time() - t0 < limit:
-        time.sleep(0.01)
+    last_n, last_t = -1, time.time()
+    stalled = False
+    while p.printing and time.time() - t0 < 150.0:
+        time.sleep(0.02)
+        n_ev = len(fw.events)
+        if n_ev != last_n:
+            last_n, last_t = n_ev, time.time()
+        elif time.time() - last_t > 6.0:
+            stalled = True
+            break
     finished = not p.printing
+    if not finished and not stalled:
+        finished = None           # still progressing at the time limit: inconclusive
     drained = wait_idle(fw, quiet=0.25, limit=90.0)
     with fw.lock:
         fw.logging = False
@@ -352,7 +364,7 @@ def main():
         rep = dict(job=lines, boot=cfg["boot"], corrupt=sorted(cfg["corrupt"]), corrupt_first_of=sorted(cfg.get("corrupt_first_of", [])), gap=cfg["gap"],
                    wire=[list(e) for e in evs][:3000], accepted=res["accepted"])
         run.count((kind, tuple(lines), tuple(sorted(cfg["corrupt"])), cfg["boot"]), len(cmds) >= 3)
-        if res["finished"] and not res.get("drained", True):
+        if res["finished"] is None or (res["finished"] and not res.get("drained", True)):
             stats["not_drained"] = stats.get("not_drained", 0) + 1     # the fake firmware still had a backlog: inconclusive
             continue
         if not res["finished"]:
